@@ -19,6 +19,7 @@
 import stat
 import time
 from paramiko.common import x80000000, o700, o70, xffffffff
+from paramiko.ssh_exception import SSHException
 
 
 class SFTPAttributes:
@@ -108,6 +109,10 @@ class SFTPAttributes:
             self.st_mtime = msg.get_int()
         if self._flags & self.FLAG_EXTENDED:
             count = msg.get_int()
+            # each pair is two length-prefixed strings (>= 8 bytes); a count
+            # the message cannot hold would make us spin on zero padding
+            if count > len(msg.get_remainder()) // 8:
+                raise SSHException("Extended attribute count exceeds size")
             for i in range(count):
                 # the type (key) precedes the data (value) on the wire; read
                 # them in that order (a single subscript assignment evaluates
